@@ -1,10 +1,14 @@
+pub mod c01;
 pub mod c06;
+pub mod c07;
 
 use crate::evidence::{Ctx, Meta, Report};
 
 pub fn dispatch(ctx: &Ctx) -> Option<(Report, Meta)> {
     Some(match ctx.prop.as_str() {
+        "C01" => c01::run(ctx),
         "C06" => c06::run(ctx),
+        "C07" => c07::run(ctx),
         _ => return None,
     })
 }
